@@ -102,7 +102,8 @@ func cmdRules(args []string) {
 		if o.Gen == "ok" {
 			nOK++
 		}
-		obs.Write(map[string]any{"id": i, "exec": false, "s": scens[i].S, "t": scens[i].T, "cfg": scens[i].Cfg,
+		imps, decls := hx.DescribeFiles(o.Files, map[string]string{b.Mod + "/p": "user"})
+		obs.Write(map[string]any{"id": i, "exec": false, "imports": imps, "decls": decls, "s": scens[i].S, "t": scens[i].T, "cfg": scens[i].Cfg,
 			"gen": o.Gen, "why": why, "namesDecl": strings.Contains(o.Why, "in.go:") || strings.Contains(o.Why, fmt.Sprintf("C%d", i)), "compiles": !badc, "comperr": b.BadComp[i], "diag": o.Gen == "fail" && o.Why != "", "nfiles": len(o.Files)})
 	}
 	recs, _, err := b.RunDriver(*scenFile, "seq")
